@@ -1239,10 +1239,18 @@ class TaskPool:
         return not any(
             (
                 stop_mode in [StopMode.REQUEST_CLEAN, StopMode.REQUEST_KILL]
-                and itask.state(*TASK_STATUSES_ACTIVE)
+                and (
+                    itask.state(*TASK_STATUSES_ACTIVE)
+                    or (
+                        # job submission already in progress: the job will
+                        # exist by the time the process pool has emptied
+                        itask.state(TASK_STATUS_PREPARING)
+                        and not itask.waiting_on_job_prep
+                    )
+                )
                 and not itask.state.kill_failed
             )
-            # preparing tasks get reset to waiting on restart
+            # other preparing tasks get reset to waiting on restart
             for itask in self.get_tasks()
         )
 
